@@ -123,6 +123,73 @@ class PsarCase(VCase):
         return []
 
 
+class PyMA:
+    """independent reference of four averaging kinds (construction value = infinite constant prehistory)"""
+
+    def __init__(self, kind, n, v):
+        self.kind, self.n, self.w, self.y = kind, n, [v] * n, v
+
+    def next(self, x):
+        if self.kind in ("ema", "rma"):
+            a = 2.0 / (self.n + 1) if self.kind == "ema" else 1.0 / self.n
+            self.y = a * x + (1 - a) * self.y
+            return self.y
+        self.w = self.w[1:] + [x]
+        if self.kind == "sma":
+            return math.fsum(self.w) / self.n
+        return math.fsum((i + 1) * v for i, v in enumerate(self.w)) / (self.n * (self.n + 1) / 2.0)   # wma
+
+
+def adx_reference(cfg, c0, cs):
+    """Wilder's directional movement as documented: +DM = up-move if it is the larger of the two moves and positive (STRICTLY
+    larger: equal moves cancel), -DM likewise; DI = smoothed DM / smoothed true range; DX = |+DI - -DI| / (+DI + -DI); ADX = MA2(DX)"""
+    k1, n1 = cfg["method1"][1], cfg["method1"][2]
+    k2, n2 = cfg["method2"][1], cfg["method2"][2]
+    p1 = cfg["period1"][1]
+    tr_ma, pl, mi, ma2 = PyMA(k1, n1, c0[1] - c0[2]), PyMA(k1, n1, 0.0), PyMA(k1, n1, 0.0), PyMA(k2, n2, 0.0)
+    hist = [c0] * p1
+    prev_close = c0[3]
+    out = []
+    for c in cs:
+        prev = hist[0]
+        hist = hist[1:] + [c]
+        tr = tr_ma.next(max(c[1], prev_close) - min(c[2], prev_close))
+        if tr == 0.0:
+            plus = minus = 0.0
+        else:
+            du, dd = c[1] - prev[1], prev[2] - c[2]
+            plus = pl.next(du if (du > dd and du > 0) else 0.0) / tr
+            minus = mi.next(dd if (dd > du and dd > 0) else 0.0) / tr
+            prev_close = c[3]
+        sm = plus + minus
+        adx = ma2.next(0.0 if sm == 0.0 else abs(plus - minus) / sm)
+        out.append((adx, plus, minus))
+    return out
+
+
+class AdxCase(VCase):
+    def oracle(self, io):
+        p, steps, pa = ind.steps_of(io, len(self.sets))
+        if p.panic_in_set or p.init != 0:
+            return None
+        cfg = im.eff_config(self.t, self.sets)
+        if cfg["method1"][1] not in ("ema", "rma", "sma", "wma") or cfg["method2"][1] not in ("ema", "rma", "sma", "wma"):
+            return None
+        ref = adx_reference(cfg, self.c0, self.cs)
+        for t, ((vals, sigs, vl, sl), want) in enumerate(zip(steps, ref)):
+            got = [bits2f(v) for v in vals]
+            for j, (g, w) in enumerate(zip(got, want)):
+                if not (math.isfinite(g) and math.isfinite(w)):
+                    continue
+                if abs(g - w) > 1e-7 * max(1.0, abs(w)):
+                    return ["step %d: ADX value %d is %r, the documented directional-movement formula gives %r" % (t, j, g, w)]
+        return []
+
+
+def case_class(name):
+    return PsarCase if name == "ParabolicSAR" else (AdxCase if name == "AverageDirectionalIndex" else VCase)
+
+
 def valid_sets(t, r, n):
     out = [[]]
     tries = 0
@@ -154,13 +221,30 @@ def run(ctx):
             regimes = LIN_REGIMES if kind == "lin" else OSC_REGIMES
             regime = r.choice(regimes)
             cs, regime = ind.candles_for(r, steps + 1, regime=regime)
-            cls = PsarCase if name == "ParabolicSAR" else VCase
+            cls = case_class(name)
             cases.append(cls(t, sets, cs[0], cs[1:], "values", {"regime": regime}, with_spec=name in im.SPECS))
         # every regime (incl. exactly flat stretches, zero volume) against the model only
         for regime in ("vol-flat-vol", "plateau", "scale-jumps", "dyadic"):
             cs, regime = ind.candles_for(r, steps + 1, regime=regime)
-            cls = PsarCase if name == "ParabolicSAR" else VCase
+            cls = case_class(name)
             cases.append(cls(t, r.choice(valid_sets(t, r, 2)), cs[0], cs[1:], "values-model-only", {"regime": regime}, with_spec=False))
+    # directed configurations (parameters that switch a different code path on) and quantised prices (multiples of 0.25:
+    # differences of highs / lows are exact, so ties between them occur) for every indicator
+    for name in im.MODELS:
+        t = tabs[name]
+        r = ctx.rng.fork("c05q-" + name)
+        for sets in ind.DIRECTED.get(name, []):
+            cs, regime = ind.candles_for(r, steps + 1, regime=r.choice(LIN_REGIMES))
+            cls = case_class(name)
+            cases.append(cls(t, sets, cs[0], cs[1:], "values-directed", {"regime": regime}, with_spec=name in im.SPECS))
+        cs, regime = ind.candles_for(r, (150 if ctx.tier == "quick" else 500) + 1, regime=r.choice(["walk", "plateau", "alternating"]))
+        q = []
+        for (o, h, l, c_, v) in cs:
+            o, h, l, c_ = [round(x * 4.0) / 4.0 if abs(x) < 1e9 else x for x in (o, h, l, c_)]
+            q.append((o, max(o, h, c_), min(o, l, c_), c_, float(int(v))))
+        for sets in [[]] + ind.DIRECTED.get(name, [])[:1]:
+            cls = case_class(name)
+            cases.append(cls(t, sets, q[0], q[1:], "values-quantised", {"regime": regime}, with_spec=False))
     # long monotone legs: a trend with many consecutive new extremes (acceleration of the parabolic SAR up to its cap and beyond)
     r = ctx.rng.fork("c05-trend")
     tc = gens.trend_candles(r, [(60, 0.004), (45, -0.005), (80, 0.01)])
